@@ -18,6 +18,7 @@ import (
 	"github.com/lmorg/murex/lang"
 	"github.com/lmorg/murex/lang/expressions"
 	"github.com/lmorg/murex/lang/ref"
+	"github.com/lmorg/murex/lang/types"
 
 	"verifharness/coqlit"
 )
@@ -322,4 +323,86 @@ func exprShrink(ts []exprTok) [][]exprTok {
 		}
 	}
 	return out
+}
+
+// ---- observed library tables (strconv via lang/types) for one case ----
+
+func exprCollectStrings(ts []exprTok, seen map[string]bool, out *[]string) {
+	for _, t := range ts {
+		if t.Str != nil && !seen[*t.Str] {
+			seen[*t.Str] = true
+			*out = append(*out, *t.Str)
+		}
+		if exprIsGroup(t) {
+			exprCollectStrings(t.Sub, seen, out)
+		}
+	}
+}
+
+func exprCollectFloats(ts []exprTok, seen map[uint64]bool, out *[]float64) {
+	for _, t := range ts {
+		if exprIsGroup(t) {
+			exprCollectFloats(t.Sub, seen, out)
+		}
+	}
+	// every contiguous operand..operand window of this group that evaluates to a number
+	for i := 0; i < len(ts); i += 2 {
+		for j := i; j < len(ts); j += 2 {
+			numeric := true
+			for k := i; k <= j; k++ {
+				t := ts[k]
+				if !(t.Num != "" || exprIsGroup(t) || t.Op == "+" || t.Op == "-" || t.Op == "*" || t.Op == "/") {
+					numeric = false
+					break
+				}
+			}
+			if !numeric {
+				break
+			}
+			w := append([]exprTok{}, ts[i:j+1]...)
+			for k := range w {
+				w[k].W = 1
+			}
+			o := exprEval(exprSource(w))
+			if o.Kind == 0 && o.Bits != "" {
+				b, _ := strconv.ParseUint(o.Bits, 16, 64)
+				if !seen[b] {
+					seen[b] = true
+					*out = append(*out, math.Float64frombits(b))
+				}
+			}
+		}
+	}
+}
+
+// exprOracles returns the Gallina record of observed conversions for the case:
+// ConvertGoType(s, Number) for every string literal and FloatToString(f) for
+// every number that a contiguous arithmetic window of the case evaluates to
+// (only when the case has a string literal: only then can a number be printed).
+func exprOracles(ts []exprTok) string {
+	var strs []string
+	exprCollectStrings(ts, map[string]bool{}, &strs)
+	if len(strs) == 0 {
+		return "no_oracles"
+	}
+	var pe []string
+	for _, s := range strs {
+		v, err := types.ConvertGoType(s, types.Number)
+		if err != nil {
+			pe = append(pe, "("+coqlit.Bytes(s)+", None)")
+			continue
+		}
+		f, ok := v.(float64)
+		if !ok {
+			continue
+		}
+		pe = append(pe, "("+coqlit.Bytes(s)+", Some "+exprFloatCoq(f)+")")
+	}
+	var fl []float64
+	exprCollectFloats(ts, map[uint64]bool{}, &fl)
+	var fe []string
+	for _, f := range fl {
+		fe = append(fe, "("+exprFloatCoq(f)+", "+coqlit.Bytes(types.FloatToString(f))+")")
+	}
+	return coqlit.Record("or_parse", coqlit.List(pe), "or_fmt", coqlit.List(fe))
 }
